@@ -333,8 +333,13 @@ def discovery_worker(args):
                 {g: list(ls.get_location_lights(g)) for g in ls.get_location_names()})
 
     def scenario(plan):
-        net = world.configure(specs[:1], discover=True)         # earlier: only A was known
+        # settings arrive as text when they come from a configuration file
+        net = world.configure(specs[:1], discover=False, extra_settings={'default_num_lights': '3'})         # earlier: only A was known
         ls = net.light_set
+        try:
+            ls.discover()
+        except Exception as ex:        # noqa
+            return 'discover() raised %s: %s (first discovery, no faults)' % (type(ex).__name__, ex), None
         before = view(ls)
         net.devices = [world.make_device(net, s) for s in specs]
         streak = {}
@@ -393,6 +398,11 @@ def discovery_worker(args):
         p0, r0 = scenario(lambda label, op, k: False)      # fault-free discovery: what the lights do with the script
     finally:
         symx.Ctx.cur = saved0
+    if p0 is not None and 'raised' in p0:
+        res.reached.add('discovery')
+        res.violation('discovery|raises without any fault', '%s\n  settings: default_num_lights given as text, as a configuration file delivers it' % p0,
+                      inputs={'faulty': None}, replayed=True)
+        return res
     if p0 is not None or r0 is not True or not reference.get('trace'):
         res.error = 'fault-free reference discovery failed: %r %r' % (p0, r0)
         return res
